@@ -686,6 +686,14 @@ func deriveTripCount(loop *Loop) {
 		}
 	}
 
+	// The closed forms count on unbounded integers. A counter that can pass the end of its type
+	// before the test fails wraps around and the loop keeps running:
+	// 'for i := uint8(1); i < 255; i += 5' is not 51 trips but 102.
+	if tripCountMayWrap(iv.Phi, isNEQ, isUpCounting, isInclusive, startC, limitC, stepC) {
+		loop.TripCount = &SCEVUnknown{Value: nil}
+		return
+	}
+
 	if isNEQ {
 		// NEQ only valid for step 1 or -1
 		stepVal := iv.Step.EvaluateAt(nil, nil)
@@ -735,6 +743,64 @@ func deriveTripCount(loop *Loop) {
 		quotient := &SCEVGenericExpr{Op: token.QUO, X: numer, Y: absStep}
 		loop.TripCount = &SCEVMax{X: zero, Y: quotient}
 	}
+}
+
+// tripCountMayWrap reports whether the counter of 'for i := start; i cmp limit; i += step' may
+// leave the value range of its type before the test fails. A unit step never does (the test
+// fails first). A wider step is checked against a constant limit; with a limit that is not a
+// constant nothing is known, which matters for the narrow types (8, 16, 32 bits) where the
+// end of the range is within reach of ordinary arguments. For '!=' the counter must start on
+// the side of the limit it is moving towards.
+func tripCountMayWrap(phi *ssa.Phi, isNEQ, isUpCounting, isInclusive bool, startC, limitC, stepC *big.Int) bool {
+	if phi == nil {
+		return false
+	}
+	basic, ok := phi.Type().Underlying().(*types.Basic)
+	if !ok || basic.Info()&types.IsInteger == 0 {
+		return false
+	}
+	bits := uint(64)
+	switch basic.Kind() {
+	case types.Int8, types.Uint8:
+		bits = 8
+	case types.Int16, types.Uint16:
+		bits = 16
+	case types.Int32, types.Uint32:
+		bits = 32
+	}
+	lo, hi := new(big.Int), new(big.Int)
+	if basic.Info()&types.IsUnsigned != 0 {
+		hi.Sub(hi.Lsh(big.NewInt(1), bits), big.NewInt(1))
+	} else {
+		lo.Neg(lo.Lsh(big.NewInt(1), bits-1))
+		hi.Sub(hi.Lsh(big.NewInt(1), bits-1), big.NewInt(1))
+	}
+	if stepC == nil {
+		return false // no closed form is built without a constant step
+	}
+	if isNEQ {
+		if startC == nil || limitC == nil {
+			return bits < 64
+		}
+		return (stepC.Sign() > 0 && startC.Cmp(limitC) > 0) || (stepC.Sign() < 0 && startC.Cmp(limitC) < 0)
+	}
+	d := new(big.Int).Abs(stepC)
+	if d.Cmp(big.NewInt(1)) == 0 {
+		return false
+	}
+	if limitC == nil {
+		return bits < 64
+	}
+	// the value the counter holds when the test fails is at most |step|-1 past the limit
+	// (|step| past it for an inclusive test)
+	over := new(big.Int).Sub(d, big.NewInt(1))
+	if isInclusive {
+		over.Set(d)
+	}
+	if isUpCounting {
+		return new(big.Int).Add(limitC, over).Cmp(hi) > 0
+	}
+	return new(big.Int).Sub(limitC, over).Cmp(lo) < 0
 }
 
 func ToSCEV(v ssa.Value, loop *Loop) SCEV {
